@@ -382,4 +382,37 @@ Section WithFloat.
     rewrite (envs_same _ _ Qs). destruct Qn as (Q1 & Q2 & Q3 & Q4). rewrite <- Q3, Henv.
     eexists. split; [reflexivity|]. repeat split; try reflexivity; try assumption; apply Qa.
   Qed.
+  (* ---- scripts ---- *)
+  Variable milli : F.
+  Definition script_equiv (s s' : script_obj F) : Prop :=
+    system_equiv (sc_system F s) (sc_system F s') /\ array_equiv (sc_tsample F s) (sc_tsample F s') /\ qty_equiv (sc_dt F s) (sc_dt F s')
+    /\ qty_equiv (effective_tmax F zero s) (effective_tmax F zero s') /\ sc_policy F s = sc_policy F s' /\ qty_equiv (sc_interval F s) (sc_interval F s')
+    /\ sc_seed F s = sc_seed F s' /\ sc_init F s = sc_init F s' /\ sc_units F s = sc_units F s'.
+  Definition wf_script (s : script_obj F) : Prop :=
+    wf_system (sc_system F s) /\ snd (snd (sc_tsample F s)) = dimTime /\ snd (snd (sc_dt F s)) = dimTime
+    /\ match sc_tmax F s with Some q => snd (snd q) = dimTime | None => True end /\ snd (snd (sc_interval F s)) = dimTime
+    /\ mem_str (sc_policy F s) policies = true /\ mem_str (sc_init F s) init_modes = true.
+
+  Theorem script_roundtrip (s : script_obj F) : wf_script s ->
+    exists s', read_script F parse_float zero one milli (write_script F print_float zero wr s) = Ok s' /\ script_equiv s s'.
+  Proof.
+    intros (Hsy & Hts & Hdt & Htm & Hit & Hpol & Hini). unfold read_script, write_script.
+    assert (Hsc : wf_schema schema_script = true /\ forallb (fun syn : list str => match syn with [] => false | _ => true end) schema_script = true
+                  /\ length schema_script = 9%nat) by (vm_compute; repeat split).
+    destruct Hsc as (Hwf & Hne & Hl). unfold wr at 1.
+    rewrite (write_then_read jv schema_script _ Hwf) by (try (cbn [length]; rewrite Hl; reflexivity); apply nonempty_of_forallb; exact Hne).
+    unfold read_units_field. assert (U : read_usys (write_usys wr (sc_units F s)) = Ok (sc_units F s)) by apply usys_roundtrip.
+    unfold write_usys in U |- *. rewrite U.
+    destruct (system_roundtrip (sc_units F s) _ Hsy) as (sy' & Esy & Qsy). rewrite Esy.
+    destruct (unitarray_roundtrip dimTime _ Hts) as (ts' & Ets & Qts). rewrite Ets.
+    destruct (read_qty_print (sc_dt F s) dimTime Hdt) as (dt' & Edt & Qdt). rewrite Edt.
+    assert (Htm' : snd (snd (effective_tmax F zero s)) = dimTime).
+    { unfold effective_tmax. destruct (sc_tmax F s) as [q|]; [exact Htm|exact Hts]. }
+    destruct (read_qty_print (effective_tmax F zero s) dimTime Htm') as (tm' & Etm & Qtm). rewrite Etm.
+    destruct (read_qty_print (sc_interval F s) dimTime Hit) as (it' & Eit & Qit). rewrite Eit.
+    rewrite Hpol, Hini. cbn [andb].
+    eexists. split; [reflexivity|]. unfold script_equiv. cbn [sc_system sc_tsample sc_dt sc_policy sc_interval sc_seed sc_init sc_units].
+    split; [exact Qsy|]. split; [exact Qts|]. split; [exact Qdt|]. split; [exact Qtm|]. split; [reflexivity|]. split; [exact Qit|].
+    repeat split; reflexivity.
+  Qed.
 End WithFloat.
